@@ -24,6 +24,8 @@ mod gen_typed;
 mod c03;
 mod gen_schema_text;
 mod c09;
+mod c14;
+mod c15;
 
 use out::Out;
 
@@ -81,6 +83,8 @@ fn main() {
                 "c19cli" => c19::run_cli(&args, &mut out),
                 "c03" => c03::run(&args, &mut out),
                 "c09" => c09::run(&args, &mut out),
+                "c14" => c14::run(&args, &mut out),
+                "c15" => c15::run(&args, &mut out),
                 s => { eprintln!("unknown stream {s}"); std::process::exit(2); }
             }
             out.write(&args.out);
